@@ -79,6 +79,15 @@ pub fn run_uninterrupted(scratch: &Path, ops: &[Op], ids: &[(Sub, Hash)]) -> Res
     for op in ops {
         let (res, ev) = crate::syncspy::record(|| apply(&mut host, &mut known, *op));
         let res = res.map_err(|e| format!("op {} failed in uninterrupted run: {e:?}", op.letter()))?;
+        let commits_now = frame::parse(&read_or_empty(&seg_path)).0.iter().filter(|r| r.is_commit()).count();
+        let commits_before = run.results.iter().filter(|r| !matches!(r, OpResult::Acked { duplicate: true, .. })).count();
+        let should_append = !matches!(res, OpResult::Acked { duplicate: true, .. });
+        if should_append && commits_now != commits_before + 1 {
+            return Err(format!(
+                "ACK-VIOLATION: op {} ({}) returned Ok but the segment holds {commits_now} complete commit marker(s), expected {}",
+                run.results.len(), op.letter(), commits_before + 1
+            ));
+        }
         run.results.push(res);
         run.synced.push(crate::syncspy::synced_len(&ev, &seg_canon).or_else(|| crate::syncspy::synced_len(&ev, &seg_path)));
         run.ends.push(read_or_empty(&seg_path).len());
